@@ -13,7 +13,8 @@ THEOREMS = ["c13_only_attributes_change", "c13_item_attributes", "c13_method_att
             "c13_handler_parameter_attributes_removed", "c13_helper_methods_untouched", "c13_idempotent"]
 
 THEOREMS_T = ["c13_translated_items_keep_foreign_attributes", "c13_translated_methods", "c13_translated_parameters",
-              "c13_translated_remove_input_attr", "c13_translated_framework_attributes", "c13_translated_framework_attribute_names"]
+              "c13_translated_remove_input_attr"]
+THEOREMS_P = ["c13_translated_framework_attributes", "c13_translated_framework_attribute_names"]
 
 HEADER = ("From Coq Require Import String List.\nImport ListNotations.\nRequire Import SV.Model.GenTables SV.Model.Strip.\n"
           "Open Scope string_scope.\n")
@@ -176,6 +177,7 @@ def check(run, replay=None):
     from . import libcommon
     libcommon.regen_imp(run)
     run.prove("Props/C13T", THEOREMS_T, strengthening=True)
+    run.prove("Props/C13P", THEOREMS_P, strengthening=True)       # the attribute parser (a separate translation)
     # ---- real sources
     files = sorted(glob.glob(os.path.join(common.REPO, "sylvia", "tests", "*.rs")) +
                    glob.glob(os.path.join(common.REPO, "examples", "**", "src", "**", "*.rs"), recursive=True) +
